@@ -696,19 +696,21 @@ func (tree *MutableTree) GetVersioned(key []byte, version int64) ([]byte, error)
 			}
 
 			if isFastCacheEnabled {
-				fastNode, _ := tree.ndb.GetFastNode(key)
-				if fastNode == nil && version == tree.ndb.getCachedLatestVersion() {
+				// if the fast node cannot be read, fall back to the tree (as
+				// ImmutableTree.Get does) instead of taking the failure for an absence
+				fastNode, err := tree.ndb.GetFastNode(key)
+				if err == nil && fastNode == nil && version == tree.ndb.getCachedLatestVersion() {
 					return nil, nil
 				}
 
-				if fastNode != nil && fastNode.GetVersionLastUpdatedAt() <= version {
+				if err == nil && fastNode != nil && fastNode.GetVersionLastUpdatedAt() <= version {
 					return fastNode.GetValue(), nil
 				}
 			}
 		}
 		t, err := tree.GetImmutable(version)
 		if err != nil {
-			return nil, nil
+			return nil, err
 		}
 		value, err := t.Get(key)
 		if err != nil {
